@@ -149,7 +149,7 @@ def chain_events(ctx, lc, tid, start, nmoves, seed):
     rng = ctx.rng
     rec = rngshim.Recorder(seed, budget=4000)
     obj = lc.Sequence(start)
-    if rng.random() < 0.5:
+    if rng.random() < 0.5 or len(start) < 16:
         common.call(obj.deltaMax)
     ev = []
     for step in range(nmoves):
@@ -269,7 +269,9 @@ def run(ctx):
         ctx.traces += 1
     # (V)
     trs = []
-    starts = common.random_sequences(ctx.rng, ctx.pick(24, 150), ctx.pick(40, 60), 4)
+    # short, fully or nearly fully charged peptides first: the class where an arrangement's delta can exceed the heuristic delta-max
+    starts = ["ESRDEKER", "EKEEEEKEEEEEKK", "KEEEEK", "KKEEEEK", "DRKKGSE", "EEKKKGKE", "KEEEKEK", "RDDDDDRG"] + \
+        common.random_sequences(ctx.rng, ctx.pick(24, 150), ctx.pick(40, 60), 4)
     for i, s in enumerate(starts):
         trs.append(chain_events(ctx, lc, len(trs) + 1, s, ctx.pick(12, 20), ctx.seed * 1000 + i))
         if i % 3 == 0:
